@@ -257,18 +257,31 @@ class Evaluator(Run):
         is_and = isinstance(node.op, ast.And)
         if self.pure:
             vals = []
+            pushed = 0
+            try:
+                return self._pure_boolop(node, frame, is_and, vals)
+            finally:
+                for _ in range(getattr(self, "_boolop_pushed", {}).pop(id(node), 0)):
+                    self.solver.pop()
+        return self._exec_boolop(node, frame, is_and)
+
+    def _pure_boolop(self, node, frame, is_and, vals):
+        if True:
             for x in node.values:
+                # later operands are evaluated under the earlier ones (python would not evaluate them otherwise): narrows unions
+                if vals and vals[-1].t.kind == "bool" and not has_quant(vals[-1].z):
+                    self.solver.push()
+                    self.solver.add(zsimp(vals[-1].z if is_and else z3.Not(vals[-1].z)))
+                    d = self.__dict__.setdefault("_boolop_pushed", {})
+                    d[id(node)] = d.get(id(node), 0) + 1
                 try:
                     v = self.ev(x, frame)
                 except EngineError:
                     # a partial operand: harmless if an earlier operand already decides the result
                     # under the path condition (python would not have evaluated it)
-                    for pv in vals:
-                        if pv.t.kind == "bool" and not has_quant(pv.z):
-                            if is_and and not self.feasible(pv.z):
-                                return mk_bool(False)
-                            if not is_and and not self.feasible(z3.Not(pv.z)):
-                                return mk_bool(True)
+                    # (the earlier operands are assumed - for `or`: their negations - so this asks whether the operand is reachable at all)
+                    if vals and not self.context_feasible():
+                        return mk_bool(not is_and)
                     raise
                 vals.append(v)
                 if v.t.kind == "bool":
@@ -284,6 +297,8 @@ class Evaluator(Run):
                     raise EngineError("spec BoolOp over different types")
                 res = V(res.t, z3.If(self.truthy(v), res.z, v.z) if is_and else z3.If(self.truthy(v), v.z, res.z))
             return res
+
+    def _exec_boolop(self, node, frame, is_and):
         v = None
         for i, x in enumerate(node.values):
             v = self.ev(x, frame)
@@ -448,6 +463,8 @@ class Evaluator(Run):
             a = self.project(a, lambda t: t.kind != "none", lab)
         if b.t.kind == "union":
             b = self.project(b, lambda t: t.kind != "none", lab)
+        if b.t.kind == "sref":
+            b = self.sref_value(b)  # a set living in a list slot, read as the right operand of a set operator
         ka, kb = a.t.kind, b.t.kind
         if ka == "opaque" and not a.is_const:
             # operator on an opaque object (e.g. pathlib `/`): its declared dunder external
@@ -714,7 +731,7 @@ class Evaluator(Run):
 
     # ================================================================== calls
     def ev_Call(self, node, frame):
-        if self.pure and isinstance(node.func, ast.Name) and node.func.id in ("old", "old_ref", "at", "pre", "forall", "exists", "implies", "log", "cnt"):
+        if self.pure and isinstance(node.func, ast.Name) and node.func.id in ("old", "old_ref", "at", "pre", "forall", "exists", "implies", "log", "cnt", "narrow"):
             # clause-language forms win over program variables of the same name (`old = {}` in Env.swap)
             return getattr(self, "special_" + node.func.id)(node, frame)
         fn = self.ev(node.func, frame)
@@ -910,16 +927,35 @@ class Evaluator(Run):
         finally:
             self.old_heap, self.spec_env = saved
 
+    def special_narrow(self, node, frame):
+        """narrow(x): a union value as the one member the enclosing antecedents (implies / and) leave possible"""
+        v = self.ev(node.args[0], frame)
+        if v.is_const or v.t.kind != "union":
+            return v
+        feas = [m for m in v.t.members if self.feasible(v.t.is_(v.z, m))]
+        if len(feas) != 1:
+            raise EngineError("narrow(): %d members of %s are possible here" % (len(feas), v.t))
+        return V(feas[0], v.t.proj(v.z, feas[0])) if feas[0].kind != "none" else mk_none()
+
     def special_implies(self, node, frame):
         a = self.truthy(self.ev(node.args[0], frame))
         if z3.is_false(zsimp(a)):
             return mk_bool(True)  # lazy: the consequent may be partial where the antecedent is false
+        # the consequent is evaluated UNDER the antecedent (it only matters where the antecedent holds), so that a union value narrowed by an
+        # isinstance / is-None test in the antecedent projects unambiguously in the consequent
+        narrowed = self.pure and not has_quant(a)
+        if narrowed:
+            self.solver.push()
+            self.solver.add(zsimp(a))
         try:
             b = self.truthy(self.ev(node.args[1], frame))
         except EngineError:
-            if not has_quant(a) and not self.feasible(a):
+            if not has_quant(a) and not (self.context_feasible() if narrowed else self.feasible(a)):
                 return mk_bool(True)
             raise
+        finally:
+            if narrowed:
+                self.solver.pop()
         return mk_bool(z3.Implies(a, b))
 
     def _quant(self, node, frame, forall, ty=None):
@@ -934,6 +970,7 @@ class Evaluator(Run):
             env[n] = V(ty, v)
         saved = self.spec_env
         self.spec_env = env
+        self.bound_vars = list(getattr(self, "bound_vars", None) or []) + vars_
         try:
             body = self.truthy(self.ev(lam.body, frame))
             guards = []
@@ -944,6 +981,7 @@ class Evaluator(Run):
                     guards += [v >= lo, v < hi]
         finally:
             self.spec_env = saved
+            self.bound_vars = self.bound_vars[:len(self.bound_vars) - len(vars_)]
         if forall:
             return mk_bool(z3.ForAll(vars_, z3.Implies(z3.And(guards), body) if guards else body))
         return mk_bool(z3.Exists(vars_, z3.And(guards + [body])))
